@@ -77,6 +77,9 @@ func FindMinBy[T constraints.Ordered](s []T, fn func(val T) T) T {
 // FindMinByKey finds the minimum value from a map by using some existing key as a parameter.
 func FindMinByKey[K comparable, T constraints.Ordered](mapSlice []map[K]T, key K) (T, error) {
 	var min T
+	if len(mapSlice) == 0 {
+		return min, errors.New("empty slice")
+	}
 	if _, ok := mapSlice[0][key]; !ok {
 		return min, errors.New("key not found")
 	}
@@ -134,6 +137,9 @@ func FindMaxBy[T constraints.Ordered](s []T, fn func(val T) T) T {
 // FindMaxByKey finds the maximum value from a map by using some existing key as a parameter.
 func FindMaxByKey[K comparable, T constraints.Ordered](mapSlice []map[K]T, key K) (T, error) {
 	var max T
+	if len(mapSlice) == 0 {
+		return max, errors.New("empty slice")
+	}
 	if _, ok := mapSlice[0][key]; !ok {
 		return max, errors.New("key not found")
 	}
